@@ -9,6 +9,10 @@
 //!        removed, GetMachineId; second draw into the fixture, GetMachineId again
 //!   g    (private mount namespace only) GetMachineId twice on whatever id file an EARLIER process left in
 //!        the directory mounted over /tmp; nothing is removed or planted by the harness
+//!   e <12 bytes hex> <12 bytes hex> <12 bytes hex>
+//!        (private mount namespace only) three GetMachineId calls in this process, each with another
+//!        draw in the fixture; nothing is removed, no file path is assumed: only the ids returned count.
+//!        Used with the process environment (TMPDIR, HOME, XDG_RUNTIME_DIR) varied by the check.
 //!   f    fallback without a namespace: a real draw; any existing /tmp/dbus_machine_uuid is saved
 //!        and restored
 //!
@@ -315,6 +319,22 @@ fn main() {
                     "R pre={} draw={} handled1={} r1={} file1={} handled2={} r2={} file2={}",
                     pre, draw, h1, r1, file1, h2, r2, file2
                 );
+            }
+            ["e", d1, d2, d3] => {
+                let fx = match (&fixture, in_ns) {
+                    (Some(f), true) => f.clone(),
+                    _ => {
+                        println!("R nofixture");
+                        continue;
+                    }
+                };
+                let mut out = String::new();
+                for (i, d) in [d1, d2, d3].iter().enumerate() {
+                    std::fs::write(&fx, unhex(d)).unwrap();
+                    let (h, r) = sess.observe(&get_id_msg());
+                    out.push_str(&format!(" handled{}={} r{}={}", i + 1, h, i + 1, r));
+                }
+                println!("R{} fixed_path={}", out, read_id_file());
             }
             ["f"] => {
                 let saved = std::fs::read(ID_PATH).ok();
